@@ -51,7 +51,8 @@ def run(tier, seed):
     v = vlib.Verdict(PID)
     wd = vlib.workdir(PID)
     exe = vlib.build_harness("dbg")
-    states = trans = events = accepted = nscn = 0
+    exe_rel = vlib.build_harness("rel")
+    states = trans = events = accepted = nscn = nscreen = 0
     jobs = []
     samples = []
     for field in FIELDS:
@@ -61,7 +62,17 @@ def run(tier, seed):
         trans += r1.generated + r2.generated
         if tier == "quick":
             pairs = pairs[seed % 24::24]
-        scns = pairs + rnd
+        # mass screening (release build, 16 threads): uniformly random operands through identities in the library's own
+        # operations; every operand set that fails one becomes a scenario (plus a few that do not), decided by TLC like the rest
+        nsc = {"f62": 64, "f64": 128, "f128": 16}[field] * (1000000 if tier == "quick" else 12000000)
+        rc, out, err = vlib.run_harness(exe_rel, ["fieldscreen", "--field", field, "--n", str(nsc), "--seed", str(seed), "--threads", "16"], timeout=3000)
+        if rc != 0:
+            raise vlib.ToolError("fieldscreen rc=%s: %s" % (rc, err[-400:]))
+        scr = [json.loads(l) for l in out.splitlines() if l.strip()]
+        nscreen += nsc
+        log("[screen] %s: %d random operand pairs screened, %d suspect operand sets handed to TLC (+%d controls)" % (
+            field, nsc, sum(1 for x in scr if x["suspect"]), sum(1 for x in scr if not x["suspect"])))
+        scns = pairs + rnd + [{"inits": x["inits"], "ops": x["ops"]} for x in scr]
         nscn += len(scns)
         samples.append({"field": field, "scenario": {"inits": scns[0]["inits"], "ops": scns[0]["ops"][:5]}})
         sp = os.path.join(wd, "scn_%s.ndjson" % field)
@@ -109,8 +120,8 @@ def run(tier, seed):
         "states": states, "transitions": trans, "traces_validated_against_impl": accepted,
         "samples": samples, "evaluations": events, "distinct_nontrivial": nscn,
         "rule": "per field: boundary-pair scenarios (20 operand classes squared x residue/Montgomery image, every operation incl. 10 exponents and 6 small "
-                "multipliers)%s plus random 8-operation sequences; every event recomputed by TLC" % (" (every 24th in the quick tier)" if tier == "quick" else ""),
-        "exhaustive": False, "shards_accepted": accepted, "shards": len(jobs),
+                "multipliers)%s plus random 8-operation sequences, plus the operand sets singled out by mass screening; every event recomputed by TLC" % (" (every 24th in the quick tier)" if tier == "quick" else ""),
+        "exhaustive": False, "shards_accepted": accepted, "shards": len(jobs), "screened_random_operand_pairs": nscreen,
         "known_finding_occurrences": v.n_known, "new_violations": v.n_new,
     }, time.time() - t0, violations=v.n_new,
         assumptions=["the listed prime factors of M-1 are prime (trusted data); everything else of the Lucas certificate is evaluated by TLC",
